@@ -459,6 +459,8 @@ class K8SExecutor(Executor):
         self.use_default_k8s_labels = config.getboolean("default_k8s_labels", True)
 
         self.is_running = False
+        # Guards the decision to start a monitor thread against the monitor's decision to exit.
+        self._monitor_lock = threading.Lock()
         self._k8s_client = k8s_utils.K8SClient()
         # We use an OrderedDict in order to retain submission order.
         self.pending_k8s_jobs: dict[str, Job | dict[int, Job]] = OrderedDict()
@@ -602,19 +604,20 @@ class K8SExecutor(Executor):
         """
         Start monitoring thread.
         """
-        if self.is_running:
-            return
+        with self._monitor_lock:
+            if self.is_running:
+                return
 
-        self.is_running = True
+            self.is_running = True
 
-        # Ensure k8s namespace exists.
-        if self.create_namespace:
-            k8s_utils.create_namespace(self._k8s_client, self.namespace)
+            # Ensure k8s namespace exists.
+            if self.create_namespace:
+                k8s_utils.create_namespace(self._k8s_client, self.namespace)
 
-        self._setup_secrets()
+            self._setup_secrets()
 
-        self._thread = threading.Thread(target=self._monitor, daemon=False)
-        self._thread.start()
+            self._thread = threading.Thread(target=self._monitor, daemon=False)
+            self._thread.start()
 
     def stop(self) -> None:
         """
@@ -630,7 +633,16 @@ class K8SExecutor(Executor):
         assert self._scheduler
 
         try:
-            while self.is_running and (self.pending_k8s_jobs or self.arrayer.num_pending):
+            while True:
+                # Decide to exit under the lock: a job submitted from now on will find the
+                # monitor not running and start a new one, instead of being left behind.
+                with self._monitor_lock:
+                    if not (
+                        self.is_running and (self.pending_k8s_jobs or self.arrayer.num_pending)
+                    ):
+                        self.is_running = False
+                        break
+
                 self.log(
                     f"Preparing {self.arrayer.num_pending} job(s) for Job Arrays.",
                     level=logging.DEBUG,
@@ -657,9 +669,11 @@ class K8SExecutor(Executor):
             # scheduler.
             self.log("_monitor got exception", level=logging.INFO)
             self._scheduler.reject_job(None, error)
+            self.is_running = False
 
+        # Note: the arrayer is stopped by stop(), not here: a job submitted concurrently may
+        # already rely on it.
         self.log("Shutting down executor...", level=logging.DEBUG)
-        self.stop()
 
     def _get_k8s_job_terminal_status(self, job: V1Job) -> tuple[Optional[str], Optional[str]]:
         """
